@@ -28,7 +28,19 @@ class Facts:
         for c in d["consts"]:
             self.consts.setdefault(c["path"], c)
         self.bodies = {}
+        import inline
+
+        self.inlined = inline.apply(d["bodies"])
+        # a new private helper that was inlined into its callers is analysed there, not on its own
+        by_path = {b["path"]: b for b in d["bodies"]}
+        self.inlined_helpers = {}
+        for caller_path, callee_path in self.inlined:
+            cb = by_path.get(callee_path)
+            if cb is not None and not str(cb.get("vis", "")).startswith("Public"):
+                self.inlined_helpers.setdefault(cb["key"], []).append(caller_path)
         for b in d["bodies"]:
+            if b["key"] in self.inlined_helpers:
+                continue
             self.bodies[b["key"]] = Body(self, b)
         for b in self.bodies.values():
             b._finish_names()
@@ -118,7 +130,8 @@ class Facts:
         return [b for b in self.bodies.values() if pred(b)]
 
     def closures_of(self, body):
-        return [b for b in self.bodies.values() if b.raw.get("parent") == body.key]
+        owners = {body.key} | set(body.raw.get("inlined", []))
+        return [b for b in self.bodies.values() if b.raw.get("parent") in owners]
 
     def impls_of_trait(self, trait_path):
         return [i for i in self.impls if i.get("trait") == trait_path]
@@ -367,6 +380,14 @@ class Body:
         if self.kind in ("Closure", "SyntheticCoroutineBody"):
             parent = f.bodies.get(raw.get("parent"))
             idx = self.key.rsplit("::", 1)[-1]
+            if parent is None and raw.get("parent") in getattr(f, "inlined_helpers", {}):
+                # closure of an inlined helper: attribute it to the function it was inlined into
+                for b2 in f.bodies.values():
+                    if raw.get("parent") in b2.raw.get("inlined", []) and b2.kind != "Closure":
+                        if b2.qual is None:
+                            b2._finish_names()
+                        self.qual = b2.qual + "::" + idx + "@" + raw["parent"].rsplit("::", 1)[-1]
+                        return
             if parent is not None:
                 if parent.qual is None:
                     parent._finish_names()
